@@ -119,10 +119,11 @@ StoredBeforeDeleted ==
     \A i, j \in DOMAIN Obs :
        (Obs[i].k = "stored" /\ Obs[j].k = "deleted" /\ Obs[i].mb = Obs[j].mb /\ Obs[i].id = Obs[j].id) => Obs[i].en < Obs[j].en
 (* stored events of one mailbox are seen in arrival order (= order expected) *)
+ExpPos(k) == CHOOSE a \in DOMAIN exp : exp[a] = k        \* defined for every observed key once ExactlyOnce holds
 ArrivalOrder ==
     \A i, j \in DOMAIN Obs :
        (Obs[i].k = "stored" /\ Obs[j].k = "stored" /\ Obs[i].mb = Obs[j].mb /\ Obs[i].en < Obs[j].en) =>
-          \A a, b \in DOMAIN exp : (exp[a] = Key(Obs[i]) /\ exp[b] = Key(Obs[j])) => a < b
+          ExpPos(Key(Obs[i])) < ExpPos(Key(Obs[j]))
 Dev(key) == /\ key \in AllowedKeys
             /\ PrintT(<<"DEVIATION", key, l>>)
 TrEvents == /\ Is("events")
